@@ -312,12 +312,22 @@ class Interp(object):
                             if is_prop:
                                 return self.call_closure(clo, [], {})
                             return clo
+                        found, val = self._class_attr(cq, attr)
+                        if found:
+                            return val
             if v.closed:
                 raise _Raise('AttributeError:' + attr)
             return TOP
         if isinstance(v, ClassRef):
             if attr == '__name__':
                 return v.name
+            if v.qual is not None and self.model is not None and v.qual in self.model.classes:
+                fi = self.model.method(v.qual, attr)
+                if fi is not None:
+                    return Closure(fi.node, {}, self, cls=v.qual)
+                found, val = self._class_attr(v.qual, attr)
+                if found:
+                    return val
             return TOP
         if isinstance(v, tuple) and len(v) == 3 and v[0] == 'super' and self.model is not None:
             fi = self.model.method(v[2], attr)
@@ -335,6 +345,37 @@ class Interp(object):
                 raise _Raise('AttributeError:' + attr)
             return ('pymethod', v, attr)
         return TOP
+
+    def _class_attr(self, cq, attr):
+        """(found, value) of a class-level assignment `attr = <expr>` in the class body of cq or of one of its bases."""
+        cache = self.__dict__.setdefault('_class_attrs', {})
+        key = (cq, attr)
+        if key in cache:
+            return cache[key]
+        res = (False, None)
+        for k in self.model.mro(cq):
+            ci = self.model.classes.get(k)
+            if ci is None:
+                continue
+            hit = None
+            for st in ci.node.body:
+                if isinstance(st, ast.Assign) and any(isinstance(t, ast.Name) and t.id == attr for t in st.targets):
+                    hit = st.value
+                elif isinstance(st, ast.AnnAssign) and isinstance(st.target, ast.Name) and st.target.id == attr and st.value is not None:
+                    hit = st.value
+            if hit is not None:
+                old = self.module
+                self.module = ci.module
+                try:
+                    val = self.ev(hit, {})
+                except (_Raise, _Abort):
+                    val = TOP
+                finally:
+                    self.module = old
+                res = (True, val)
+                break
+        cache[key] = res
+        return res
 
     def _classes_named(self, name):
         idx = self.model.__dict__.get('_classes_by_name')
@@ -945,6 +986,12 @@ class Interp(object):
             return repr(v)
         except Exception as ex:
             raise _Raise(type(ex).__name__)
+
+    def builtin_ascii(self, args, kwargs, e, env):
+        v = args[0]
+        if v is TOP or isinstance(v, Obj):
+            return TOP
+        return ascii(v)
 
     def builtin_type(self, args, kwargs, e, env):
         return self.typeof(args[0]) if len(args) == 1 else TOP
